@@ -161,6 +161,10 @@ pub struct Stats {
     /// same operation had not yet completed.
     pub out_of_order_items: u64,
     pub workers_used_max: u64,
+    /// Clock seam: operations with drifting time, jumps taken, simulated nanoseconds added.
+    pub clock_drift_ops: u64,
+    pub clock_jumps: u64,
+    pub clock_ns_added: u64,
 }
 
 impl Stats {
@@ -190,6 +194,9 @@ impl Stats {
         self.decisions += o.decisions;
         self.out_of_order_items += o.out_of_order_items;
         self.workers_used_max = self.workers_used_max.max(o.workers_used_max);
+        self.clock_drift_ops += o.clock_drift_ops;
+        self.clock_jumps += o.clock_jumps;
+        self.clock_ns_added += o.clock_ns_added;
     }
 }
 
@@ -337,6 +344,10 @@ struct Policy {
     stall_at: u64,
     stalled: bool,
     stall_done: bool,
+    /// Clock plan of the current root operation.
+    clock_drift_ns: u64,
+    clock_jump_at: u64,
+    clock_jump_ns: u64,
 }
 
 struct OpTrace {
@@ -534,6 +545,7 @@ impl Sim {
             })
             .collect();
         let watchdog_s = cfg.watchdog_s;
+        crate::clock::reset();
         let sim = Arc::new(Sim {
             watchdog_s,
             inner: Mutex::new(Inner {
@@ -557,6 +569,9 @@ impl Sim {
                     stall_at: 0,
                     stalled: false,
                     stall_done: false,
+                    clock_drift_ns: 0,
+                    clock_jump_at: u64::MAX,
+                    clock_jump_ns: 0,
                 },
                 stats: Stats::default(),
                 op: OpTrace {
@@ -583,10 +598,12 @@ impl Sim {
     pub fn install(self: &Arc<Sim>) {
         *self.driver_parker.thread.lock().unwrap() = Some(thread::current());
         CURRENT.with(|c| *c.borrow_mut() = Some((self.clone(), 0, DRIVER)));
+        crate::clock::set_thread_sim_time(true);
     }
 
     pub fn uninstall() {
         CURRENT.with(|c| *c.borrow_mut() = None);
+        crate::clock::set_thread_sim_time(false);
     }
 
     fn lock(&self) -> MutexGuard<'_, Inner> {
@@ -700,6 +717,13 @@ impl Sim {
     }
 
     fn park(self: &Arc<Sim>, me: usize, mp: &Parker) {
+        // the harness' own waiting and its watchdog run on real time
+        let sim_time = crate::clock::set_thread_sim_time(false);
+        self.park_real(me, mp);
+        crate::clock::set_thread_sim_time(sim_time);
+    }
+
+    fn park_real(self: &Arc<Sim>, me: usize, mp: &Parker) {
         let mut last = self.progress.load(Ordering::SeqCst);
         let mut since = Instant::now();
         loop {
@@ -743,6 +767,18 @@ impl Sim {
             YieldKind::JobStart | YieldKind::JoinPush | YieldKind::JobEnd | YieldKind::LeafEnd | YieldKind::Shared
         );
         g.policy.step += 1;
+        // clock seam: time passes at scheduling points, by the plan of this operation
+        if g.policy.clock_drift_ns > 0 {
+            let d = g.policy.clock_drift_ns;
+            crate::clock::advance_ns(d as i64);
+            g.stats.clock_ns_added += d;
+        }
+        if g.policy.step == g.policy.clock_jump_at {
+            let j = g.policy.clock_jump_ns;
+            crate::clock::advance_ns(j as i64);
+            g.stats.clock_jumps += 1;
+            g.stats.clock_ns_added += j;
+        }
         let k = g.k();
 
         if !forced {
@@ -887,6 +923,24 @@ impl Sim {
         g.policy.step = 0;
         g.policy.stalled = false;
         g.policy.stall_done = false;
+        // clock plan: mostly none; steady drift; or one jump somewhere in the operation
+        g.policy.clock_drift_ns = 0;
+        g.policy.clock_jump_at = u64::MAX;
+        g.policy.clock_jump_ns = 0;
+        match g.choose(8) {
+            5 => {
+                let e = g.choose(5);
+                g.policy.clock_drift_ns = [1_000u64, 20_000, 300_000, 5_000_000, 100_000_000][e as usize];
+                g.stats.clock_drift_ops += 1;
+            }
+            6 | 7 => {
+                let at = 1 + g.choose(600);
+                let e = g.choose(5);
+                g.policy.clock_jump_at = at;
+                g.policy.clock_jump_ns = [10_000_000u64, 300_000_000, 3_000_000_000, 30_000_000_000, 3_600_000_000_000][e as usize];
+            }
+            _ => {}
+        }
         let k = g.k() as u64;
         match g.cfg.sched {
             SchedMode::Interleave => {
@@ -1120,6 +1174,7 @@ fn on_blocked() -> ! {
 
 fn worker_main(sim: Arc<Sim>, pool_idx: usize, idx: usize, parker: Arc<Parker>) {
     CURRENT.with(|c| *c.borrow_mut() = Some((sim.clone(), pool_idx, idx)));
+    crate::clock::set_thread_sim_time(true);
     // wait for the first token
     sim.park_worker_initial(&parker);
     loop {
@@ -1147,12 +1202,14 @@ fn worker_main(sim: Arc<Sim>, pool_idx: usize, idx: usize, parker: Arc<Parker>) 
 
 impl Sim {
     fn park_worker_initial(self: &Arc<Sim>, parker: &Parker) {
+        let sim_time = crate::clock::set_thread_sim_time(false);
         loop {
             if parker.go.swap(false, Ordering::SeqCst) {
                 break;
             }
             thread::park_timeout(Duration::from_millis(200));
         }
+        crate::clock::set_thread_sim_time(sim_time);
         let me = current().map(|c| c.1).unwrap();
         let mut g = self.lock();
         if g.shutdown {
